@@ -172,3 +172,79 @@ def log_genotype_prior(genotype: A[iN, 1], unique_haplotypes: int, inbreeding: f
             if frequencies is not None:
                 unfold(DMSUMF(genotype, P, frequencies, (1 - inbreeding) / inbreeding, i + 1))
             lemma_cnt_pos(genotype, P, i)
+
+
+# ---- the prior depends on the genotype only through its first P entries
+
+
+@lemma(shared=True)
+def lemma_lgsumg_ext(g: A[int, 1], h: A[int, 1], P: int, n: int):
+    requires(n <= P, forall(0, P, lambda i: g[i] == h[i]))
+    ensures(LGSUMG(g, P, n) == LGSUMG(h, P, n))
+    decreases(n)
+    unfold(LGSUMG(g, P, n), LGSUMG(h, P, n))
+    if n > 0:
+        lemma_lgsumg_ext(g, h, P, n - 1)
+        lemma_cnt_ext(g, h, g[n - 1], P)
+        lemma_cnt_ext(g, h, g[n - 1], n - 1)
+
+
+@lemma(shared=True)
+def lemma_dmsumc_ext(g: A[int, 1], h: A[int, 1], P: int, al: float, n: int):
+    requires(n <= P, forall(0, P, lambda i: g[i] == h[i]))
+    ensures(DMSUMC(g, P, al, n) == DMSUMC(h, P, al, n))
+    decreases(n)
+    unfold(DMSUMC(g, P, al, n), DMSUMC(h, P, al, n))
+    if n > 0:
+        lemma_dmsumc_ext(g, h, P, al, n - 1)
+        lemma_cnt_ext(g, h, g[n - 1], P)
+        lemma_cnt_ext(g, h, g[n - 1], n - 1)
+
+
+@lemma(shared=True)
+def lemma_dmsumf_ext(g: A[int, 1], h: A[int, 1], P: int, f: A[float, 1], c: float, n: int):
+    requires(n <= P, forall(0, P, lambda i: g[i] == h[i]))
+    ensures(DMSUMF(g, P, f, c, n) == DMSUMF(h, P, f, c, n))
+    decreases(n)
+    unfold(DMSUMF(g, P, f, c, n), DMSUMF(h, P, f, c, n))
+    if n > 0:
+        lemma_dmsumf_ext(g, h, P, f, c, n - 1)
+        lemma_cnt_ext(g, h, g[n - 1], P)
+        lemma_cnt_ext(g, h, g[n - 1], n - 1)
+
+
+@lemma(shared=True)
+def lemma_fprod_ext(f: A[float, 1], g: A[int, 1], h: A[int, 1], n: int):
+    requires(forall(0, n, lambda i: g[i] == h[i]))
+    ensures(FPROD(f, g, n) == FPROD(f, h, n))
+    decreases(n)
+    unfold(FPROD(f, g, n), FPROD(f, h, n))
+    if n > 0:
+        lemma_fprod_ext(f, g, h, n - 1)
+
+
+@lemma(shared=True)
+def lemma_cprior_flat_ext(g: A[int, 1], h: A[int, 1], P: int, u: int, F: float):
+    requires(P >= 0, forall(0, P, lambda i: g[i] == h[i]))
+    ensures(CPRIOR_FLAT(g, P, u, F) == CPRIOR_FLAT(h, P, u, F))
+    lemma_lgsumg_ext(g, h, P, P)
+    lemma_dmsumc_ext(g, h, P, ALPHA(F, 1 / u), P)
+
+
+@lemma(shared=True)
+def lemma_cprior_freq_ext(g: A[int, 1], h: A[int, 1], P: int, f: A[float, 1], u: int, F: float):
+    requires(P >= 0, forall(0, P, lambda i: g[i] == h[i]))
+    ensures(same(CPRIOR_FREQ(g, P, f, u, F), CPRIOR_FREQ(h, P, f, u, F)))
+    lemma_lgsumg_ext(g, h, P, P)
+    lemma_fprod_ext(f, g, h, P)
+    lemma_dmsumf_ext(g, h, P, f, (1 - F) / F, P)
+
+
+@lemma(shared=True)
+def lemma_fprod_pos(f: A[float, 1], g: A[int, 1], n: int):
+    requires(forall(0, n, lambda i: real(f[g[i]]) > 0))
+    ensures(FPROD(f, g, n) > 0)
+    decreases(n)
+    unfold(FPROD(f, g, n))
+    if n > 0:
+        lemma_fprod_pos(f, g, n - 1)
